@@ -180,6 +180,14 @@ def observe(ctx, case, A, src, shape, modes, eps, rmax, label, caps_written=None
         kw['shape'] = shape
     if rmax is not None:
         kw['rmax'] = rmax
+    # argument kinds the constructor accepts besides list / float / int: a tuple for a tensor shape, numpy scalars for eps and a scalar rmax
+    akind = case.get('seed', 0) % 4
+    if akind == 1 and shape is not None and case['shape'] == 'tensor':
+        kw['shape'] = tuple(shape)
+    if akind == 2:
+        kw['eps'] = np.float64(eps)
+        if isinstance(rmax, int):
+            kw['rmax'] = np.int64(rmax)
     source = src.numpy() if case.get('source') == 'numpy' else src
     kind = 'operator' if case['shape'] == 'operator' else 'tensor'
     key = 'svd/%s/%s' % (kind, 'order1' if d == 1 else 'order>=2')
